@@ -81,7 +81,7 @@ CHECKS = {
    design="5/C20"),
  "C05": dict(
    text="Generated-input search against a count model: ~300k random (calendar, start date, operation, day count, flag) cases per quick run (10M thorough) covering add_bus_days, lag, bus_date_range and add_days, with day counts over the whole i8 range weighted to 0, +-1, +-2, +-127 and -128, business and non-business starts, plus an enumeration of all 256 day counts x both flags x three operations on sampled (built-in calendar, date) pairs. The oracle counts business days one at a time over the calendar's own predicates, applies the settlement roll in the direction of n, and asserts the inverse law and the error contract. Exploration only: it shows agreement on everything generated, not for every calendar.",
-   note="Trusts is_bus_day/is_settlement of the calendar (C06/C07). lag(non-business date, 0, settlement=true) is under-specified by the documentation; both readings are accepted.",
+   note="is_bus_day of a plain calendar (a leaf) is ground truth for built-in parts (C07); the combination rule is re-derived from the parts. lag(non-business date, 0, settlement=true) is under-specified by the documentation; both readings are accepted.",
    technique="property-based testing (proptest, shrinking) + bounded exhaustive enumeration against a day-by-day count model",
    design="5/C05"),
  "C06": dict(
@@ -101,9 +101,24 @@ CHECKS = {
    design="5/C08"),
  "C04": dict(
    text="Generated-input search with an independent oracle: ~300k random (calendar, date, modifier, flag) cases per quick run (12M thorough) over plain, combined and named calendars with arbitrary week masks and holiday runs aimed at month/year ends and settlement-only closures, plus a sweep of every date x modifier x flag over the 14 built-in calendars and 6 typical combinations (30-year window quick, all of 1970-2200 thorough, where it is exhaustive). Each result is compared with a day-by-day reference walk; fixed-point and idempotence laws are asserted. Exploration cannot show absence for arbitrary user calendars, but the built-in sweep is complete.",
-   note="Trusts the calendar object's own is_bus_day/is_settlement (decided by C06/C07); midnight timestamps only; holiday runs <= 12 days.",
+   note="is_bus_day of a plain calendar (a leaf) is ground truth for built-in parts (C07 decides the tables); midnight timestamps only; holiday runs <= 12 days.",
    technique="property-based testing (proptest, shrinking) + exhaustive enumeration against a reference walk",
    design="5/C04"),
+}
+
+# extensions made after the seeded rounds (appended to the level text of the property)
+ADDED = {
+ "C04": " Since the third seeded round is_bus_day / is_settlement are no longer trusted: both are re-derived from the calendar's parts (week masks, holiday lists, the split name) and compared on every date between input and result.",
+ "C05": " The eligibility predicates are re-derived from the calendar's parts on the fortnight around each start date.",
+ "C09": " The re-based twin market spells every occurrence of a currency code in its own mix of upper and lower case.",
+ "C10": " 20% of update items re-quote a pair at its current value (only the number kind / own variables change).",
+ "C11": " The generic constructor is fed float, first-order and second-order node values.",
+ "C13": " A and b are handed over as row-major, column-major or strided views; least squares is also allowed on square systems; whole systems are scaled by exact powers of two (2^+-35..70) in 25% of draws.",
+ "C14": " 40% of the knot sequences are scaled by 2^-70..-30 or 2^20..40; the vectorised entry points PPSpline::bspldnev / bsplmatrix are compared with the scalar functions.",
+ "C15": " Also: basis functions at dual abscissae through the four public dual entry points, dual data x dual abscissa for m = 0 and 1 with mixed second-order terms, re-solving an object (history independence), too few sites with least squares allowed, and a scale-covariance relation (the problem re-solved on a domain multiplied by 2^-70..-30 / 2^20..40).",
+ "C16": " FX markets are saved freshly built or after 1-2 quote updates.",
+ "C19": " Comparisons also through the Number container in six operand positions and on pairs of special floats (signed zeros, NaN, infinities, neighbouring doubles, subnormals).",
+ "C20": " Documents are also mutated by re-shaping a serialised array (same element count); add_bus_days is held to its error contract (error iff non-business start).",
 }
 
 def main():
@@ -123,7 +138,7 @@ def main():
                 "evidence_file": f"/verif/evidence/{pid}.json",
                 "replay_cmd_template": f"./check {pid} --replay {{path}}",
                 "engine": "rlverif",
-                "level_claimed": {"category": "exploration", "text": c["text"], "design_ref": c["design"]},
+                "level_claimed": {"category": "exploration", "text": c["text"] + ADDED.get(pid, ""), "design_ref": c["design"]},
                 "level_note": c["note"],
                 "technique": c["technique"],
             })
